@@ -30,7 +30,12 @@ ESCAPE_SEQUENCE_SINGLE_RE = re.compile(r'''
     )''', re.UNICODE | re.VERBOSE)
 
 def decode_match(match: T.Match[str]) -> str:
-    return codecs.decode(match.group(0).encode(), 'unicode_escape')
+    try:
+        return codecs.decode(match.group(0).encode(), 'unicode_escape')
+    except UnicodeDecodeError:
+        # Not a valid escape after all (unknown character name, code point
+        # out of range): leave it unchanged like any unrecognized sequence.
+        return match.group(0)
 
 class ParseException(MesonException):
 
